@@ -15,6 +15,7 @@
 (***************************************************************************)
 EXTENDS MC_Eval, VM
 
+CONSTANT SelfRef   \* also generate programs in which a recursive function passes ITSELF as a function value
 VARIABLE rep       \* report about the compiled program of the current state (computed once per state)
 vvars == <<stage, seed, prog, rep>>
 
@@ -49,6 +50,12 @@ XTails(s) ==
      << ExprS(Mk("P", << [f |-> "x", e |-> a], [f |-> "y", e |-> Call("f_inc", <<a>>)] >>)) >>,
      << ExprS(Fld(Call("head", <<ListE(<<PVal(a, Lit(7)), PVal(Lit(7), a)>>)>>), "y")) >>,
      << Let("w_c", Var("f_mkp")), ExprS(Call("f_sel", <<Call("w_c", <<a, Var("w_b")>>)>>)) >> }
+  \cup (IF SelfRef
+        THEN { << Fn("f_ap", <<"f", "x">>, <<"f: Fn[(Scalar) -> Scalar]", "x: Scalar">>, Call("f", <<X>>), << >>),
+                  Fn("f_self", <<"n">>, <<"n: Scalar">>,
+                     IfE(Op2("lt", Var("n"), Lit(1)), a, Call("f_ap", <<Var("f_self"), Op2("sub", Var("n"), Lit(1))>>)), << >>),
+                  ExprS(Op2("add", Call("f_self", <<Lit(2)>>), Lit(1))) >> }
+        ELSE {})
 
 VInit == Init /\ rep = << >>
 CodeJson(code) == [j \in 1..Len(code) |-> [o |-> code[j].o, op |-> code[j].op, a |-> code[j].a]]
